@@ -85,7 +85,8 @@ def make_case(seed, index, tier):
                           'work': rng.choice([0, 0, 0.5, 1])})
     return {'seed': seed, 'index': index, 'tier': tier,
             'scenario': {'producers': producers, 'consumers': consumers},
-            'twins': rng.random() < 0.4, 'reused': rng.random() < 0.4}
+            'twins': rng.random() < 0.4, 'reused': rng.random() < 0.4,
+            'nones': rng.random() < 0.25}
 
 
 class QueueChecker:
@@ -94,6 +95,7 @@ class QueueChecker:
         self.sess = arena.sess
         self.queue = queue
         self.put_order = []        # items whose put() was entered while open, in order
+        self.none_idents = set()   # items whose payload is None
         self.put_done = set()
         self.rejected = set()
         self.received = []         # (item, consumer)
@@ -146,6 +148,9 @@ class QueueChecker:
         self.pending.append(who)
 
     def got(self, who, item):
+        if item is None:
+            # a None payload carries no id: it stands for the oldest buffered None item
+            item = next((other for other in self.buffered() if other in self.none_idents), None)
         self.arena.log(who, 'got', item)
         self.stats['items_received'] += 1
         if self.pending and self.pending[0] != who:
@@ -189,6 +194,9 @@ class QueueChecker:
 
     def quiescence(self, sess, loop):
         final = [unwrap(item) for item in self.queue._buffer]
+        pending_nones = [item for item in self.buffered() if item in self.none_idents]
+        final = [item if item is not None else (pending_nones.pop(0) if pending_nones else None)
+                 for item in final]
         got = [item for item, _ in self.received]
         for item in self.put_done:
             if item not in got and item not in final and item not in self.rejected:
@@ -242,6 +250,13 @@ def build_for(case):
     def build(arena):
         queue = Queue()
         wrap = Twin if case.get('twins') else str
+        if case.get('nones'):
+            # every other item is None (a valid item: it must not look like 'nothing there')
+            def wrap(item, plain=wrap):
+                if len(checker.put_order) % 2 == 0:
+                    checker.none_idents.add(item)
+                    return None
+                return plain(item)
         if case.get('reused'):
             earlier_simulation(queue)
         checker = QueueChecker(arena, queue)
